@@ -199,7 +199,6 @@ int main(void)
             }
             else if (!strcmp(sub, "full")) printf("hpfull %d\n", HighPriorityASDUQueue_isFull(hq));
             else if (!strcmp(sub, "reset")) HighPriorityASDUQueue_resetConnectionQueue(hq);
-            else if (!strcmp(sub, "unconf")) printf("hpunconf %d\n", HighPriorityASDUQueue_hasUnconfirmedIMessages(hq));
             hq_dump();
         }
 #endif
